@@ -60,6 +60,12 @@ CLAIMED = {
         "Trusted base: spec/layout.rs (SR2025 layouts restricted to options the crate's types document) and spec/exemplar.rs; disagreements were triaged in both directions (DESIGN.md section 8).",
         "DESIGN.md section 3, C03",
     ),
+    "C17": (
+        "runtime monitor, exhaustive product of code-word variants x places x types; documented-place oracle (three-valued), cross-type agreement, predicate-implies-method check through the real parse plugin",
+        "Exhaustive exploration of the product the property quantifies over (14 field-72 variants x 6 {108:} variants x 5 {119:} variants) on real messages of MT103/202/205 and of each other type: classification iff code word at a documented place, return-only never reject, same words same classification across supporting types, plugin method = method implied by the predicates.",
+        "Documented places are restated in the harness (line start of field 72, whole {108:} value); other spellings are only used for agreement checks.",
+        "DESIGN.md section 3, C17",
+    ),
     "C07": (
         "runtime monitor: catch_unwind + panic-hook over all public entry points on hostile/mutated inputs; CPU-time size ramps",
         "Exploration: every public parse / validate / serialise / JSON / error-rendering entry point is executed under a panic monitor on corpus-derived, systematically and randomly mutated inputs (non-ASCII, truncation, structure characters, size ramps); held = no panic/timeout outside the listed known findings on the executions observed.",
